@@ -14,8 +14,22 @@ def showObs (o : C17.Obs) : String :=
   let base := s!"r={showList o.cum} post={o.post} late={o.late} st={st}"
   o.flags.foldl (fun acc f => acc ++ " " ++ f) base
 
+def validIdx (s : String) : Bool :=
+  match parseNats s with
+  | some l => l.all (fun v => 1 ≤ v && v ≤ 4096)
+  | none => false
+
+def parseOp3 (s bs p : String) : Option (C17.Strat × List Nat × Nat) := do
+    let st ← parseStrat s
+    let bursts ← parseNats bs
+    let post ← p.toNat?
+    if bursts.all (fun b => 1 ≤ b && b ≤ 4096) && post ≤ 64 then pure (st, bursts, post) else none
+
+/-- `<strat> <bursts> <post> [<errs> <blocks>]`: which `retransmitFn` invocations fail or are slow
+    is part of the history but not of the prediction — the schedule must not depend on it. -/
 def parseOp (line : String) : Option (C17.Strat × List Nat × Nat) :=
   match splitWs line with
+  | [s, bs, p, es, ks] => if validIdx es && validIdx ks then parseOp3 s bs p else none
   | [s, bs, p] => do
     let st ← parseStrat s
     let bursts ← parseNats bs
@@ -69,7 +83,7 @@ def monitor (op obs : String) : String :=
       if C17.holds st bursts post o then "ok"
       else if o.flags.contains "RACE" then "FAIL data-race-on-backoff-state"
       else if o.post != 0 || o.late != 0 then "FAIL tick-after-cancellation"
-      else if !o.flags.isEmpty then "FAIL stall"
+      else if !o.flags.isEmpty then "FAIL tick-lost-or-stalled"
       else "FAIL retransmission-schedule"
 
 def main (args : List String) : IO UInt32 := driverMain model monitor args
